@@ -90,6 +90,14 @@ def gram_passes(pid, tier):
         P.append(('NT2 T2 R<=%d' % (3 if q else 4), base + ['--nt', '2', '--t', '2', '--err', '0', '--maxR', '3' if q else '4', '--maxlen', '4', '--prec-levels', '2' if q else '3', '--rprec-max', '1' if q else '3'] + ([] if q else ['--prec-base', '-1'])))
         if not q:
             P.append(('operator grammars NT1 T3 R=4 W 6..8', base + ['--nt', '1', '--t', '3', '--err', '0', '--minR', '4', '--maxlen', '5', '--prec-levels', '3', '--rprec-max', '2']))
+    LIFT = 'lifted frames (61 unused terminals and/or 63 unused nonterminals declared in front, so that every symbol index, <eof>, error and the augmented root lie across the 64-bit word boundaries of the item-set and FIRST bitsets; also 125/62 around the 128 boundary): '
+    if pid in ('C01', 'C02', 'C09', 'C11', 'C16'):
+        P.append((LIFT + 'NT2 T2 R<=%d W<=%d, strings<=4' % (2 if q else 3, 4 if q else 5), base + ['--nt', '2', '--t', '2', '--err', '0', '--maxR', '2' if q else '3', '--maxlen', '4'], 'lift'))
+        if pid in ('C01', 'C11') and not q: P.append((LIFT + 'NT2 T3 R<=2, strings<=3', base + ['--nt', '2', '--t', '3', '--err', '0', '--maxlen', '3'], 'lift'))
+    if pid in ('C08', 'C16'):
+        P.append((LIFT + 'error-rule frames NT2 T2 R<=2 and NT2 T3 R<=2, strings<=4', base + ['--nt', '2', '--err', '1', '--maxlen', '4'], 'lift'))
+    if pid == 'C05':
+        P.append((LIFT + 'operator grammars NT1 T3 R<=3 W<=6, all precedence/associativity assignments', base + ['--nt', '1', '--t', '3', '--err', '0', '--maxR', '3', '--maxlen', '4', '--prec-levels', '2' if q else '3', '--rprec-max', '1' if q else '2'], 'lift'))
     if pid in ('C01', 'C02', 'C05', 'C08', 'C09', 'C11', 'C16'):
         P.append(('realistic seed grammars (JSON, layered expression grammar with calls, 5-operator grammar with declared precedence, statements with error recovery), all one-symbol variants, strings<=3 over 8-11 terminals + every sentence of the seed up to %d tokens and its one-token deletions' % (7 if q else 8), base + ['--maxlen', '3', '--sentences', '7' if q else '8', '--neighbours', '--max-per-frame', '0', '--seeds', os.path.join(VERIF, 'seeds', 'gram_big_seeds.txt')], 'big'))
     return ('quick' if q else 'thorough'), P
@@ -108,6 +116,8 @@ GRAM_RULE = {
 def gram_replay_cmd(exe, v, pid):
     cmd = [exe, '--props', pid, '--one', v['spec'], '--nt', str(v['nt']), '--t', str(v['t']), '--prec', v.get('pspec', ''), '--rprec', v.get('rspec', ''), '--maxlen', '5', '-v']
     if v.get('input') or v.get('kind', '') in (): cmd += ['--input', v['input']]
+    m = re.search(r'\+t(\d+)', v.get('frame', '')); n = re.search(r'\+n(\d+)', v.get('frame', ''))
+    if m or n: cmd += ['--off', m.group(1) if m else '0', '--noff', n.group(1) if n else '0']
     if ']L' in v.get('frame', ''): cmd += ['--custom', '1']
     elif any(ch in v.get('input', '') for ch in ' \n?'): cmd += ['--rich']
     return cmd
@@ -120,6 +130,7 @@ def run_gram(pid, tier, rep, deadline_s):
         if isinstance(e_, tuple): harness_error('the white-box harness does not compile against this tree:\n' + e_[1])
         exes[s_] = e_
     exe = exes[setname]
+    deadline_s += time.time() - rep.t0      # the time budget is for exploring; building the engines for a changed tree does not count against it
     merged_all = []
     bounds = []
     work = os.path.join(BUILD, 'run-%s-%s%s' % (pid, tier, ('-%d' % os.getpid()) if _SCRATCH else ''))
@@ -205,7 +216,7 @@ def run_scale(pid, tier, rep, deadline_s):
     from concurrent.futures import ThreadPoolExecutor
     def one(fe):
         f, e = fe
-        return f, sh([e], timeout=max(30, deadline_s - (time.time() - rep.t0)))
+        return f, sh([e], timeout=300)
     tot = {}; fams = []; nv = 0; incomplete = []
     with ThreadPoolExecutor(max_workers=max(2, NCPU // 2)) as ex:
         results = list(ex.map(one, sorted(exes.items())))
@@ -790,6 +801,8 @@ def main(argv):
             e = common.build_gram('quick')
             if isinstance(e, tuple): print(e[1]); return 2
             e = common.build_gram('big')
+            if isinstance(e, tuple): print(e[1]); return 2
+            e = common.build_gram('lift')
             if isinstance(e, tuple): print(e[1]); return 2
             e = common.build_rx()
             if isinstance(e, tuple): print(e[1]); return 2
